@@ -214,6 +214,9 @@ MUTANTS = {
     "c14-return-map-built-once": ("C14", "EasyFEA/Models/InElastic/_behavior.py",
         "        if self.__eigen is None or not np.array_equal(C, self.__eigen_C):\n",
         "        if self.__eigen is None:\n"),
+    "c17-one-history-array-for-all-groups": ("C17", "EasyFEA/Simulations/_phasefield.py",
+        "                history.get(groupElem.elemType) if isinstance(history, dict) else None\n",
+        "                next(iter(history.values()), None) if isinstance(history, dict) and len(history) else None\n"),
     "c11-get-pmat-times-norm": ("C11", "EasyFEA/Models/_utils.py",
         "        axis_1,\n        1 / np.linalg.norm(axis_1, axis=0),\n",
         "        axis_1,\n        np.linalg.norm(axis_1, axis=0),\n"),
